@@ -59,6 +59,24 @@ def check(run):
     for a, b in kinds2:
         for setup in ([], section(a, 1)):
             progs.append(program(setup, [section(a, 1), section(b, 1)], "dfs", n=500, preempt=2 if q else 3))
+    # (e) two NEVER-SEEN keys used for the first time at the same moment, after some other key has a history (shared spare objects)
+    for a, b in kinds2:
+        for setup in (section(a, 1), section(a, 1) + section(a, 1)):
+            progs.append(program(setup, [section(a, 2), section(b, 3)], "dfs", n=400, preempt=2 if q else 3))
+            acq, rel = CS[a]
+            progs.append(program(setup, [[c(acq, 2), c("Wait", wt=2, wn=2), c(rel, 2)], section(b, 3)], "dfs", n=300, preempt=2))
+    # (f) ClearKey in quiescent states: afterwards the key must behave like any other key (one mutex for everybody, again)
+    for fam, clr in ((MUTEX, "ClearKey"), (RW, "WClearKey")):
+        for a in fam:
+            for b in fam:
+                acq, rel = CS[a]
+                setup = section(a, 1) + [c(clr, 1)]
+                progs.append(program(setup, [[c(acq, 1), c("Wait", wt=2, wn=2), c(rel, 1)], section(b, 2) + section(b, 1)], "dfs", n=300, preempt=2))
+                if b.startswith("T"):     # the other goroutine only TRIES the held key (a blocking acquisition would wait for ever: by design)
+                    progs.append(program(setup + section(a, 1) + section(a, 2), [[c(acq, 1), c("Wait", wt=2, wn=2), c(rel, 1)], section(b, 1)],
+                                         "dfs", n=300, preempt=2))
+                progs.append(program(section(a, 1) + section(a, 2) + [c(clr, 1)] + section(a, 1) + section(a, 2),
+                                     [section(a, 1), section(b, 1)], "dfs", n=400, preempt=2))
     # (d) three goroutines, two keys, seeded random schedules
     rnd = []
     for i in range(30 if q else 500):
@@ -70,7 +88,7 @@ def check(run):
     h2, _ = run_programs(run, "keyed", rnd)
     allh = h1 + h2
     segs, srcs = history_segments(allh)
-    validate(run, "keyed", "KeyedLockAbsTrace", dict(NK=2, NT=4), segs, [], plans=replay_plans(srcs), label="history")
+    validate(run, "keyed", "KeyedLockAbsTrace", dict(NK=3, NT=4), segs, [], plans=replay_plans(srcs), label="history")
     for r in run.rejections:
         r["fact"] = True
     run.cov.update(dfs_programs=len(progs), random_programs=len(rnd), executions=run.cov.get("executions_total", 0),
@@ -81,7 +99,7 @@ def check(run):
                         "key 1 until the other has completed a section on key 2 (independence) or a Try on key 1 (Try never blocks); seeded "
                         "random schedules of 3-4 goroutines on 2 keys; distinct_nontrivial = distinct histories validated by TLC")
     run.cov["samples"] = [segs[len(segs) // 3][:12]]
-    run.assumptions += ["key type int", "ClearKey is not driven (covered by the property only when nobody holds or awaits the key)",
+    run.assumptions += ["key type int (the zero key included)", "ClearKey is driven only in quiescent states, as the property says",
                         "the scheduler's view of each mutex object is exact because of the verif hooks in front of every blocking Lock"]
     return finish(run)
 
@@ -91,7 +109,7 @@ def replay(run, rp):
         return check(run)
     hists, _ = run_programs(run, "keyed", [rp["plan"]])
     segs, srcs = history_segments(hists)
-    validate(run, "keyed", "KeyedLockAbsTrace", dict(NK=2, NT=4), segs, [], plans=replay_plans(srcs), label="history")
+    validate(run, "keyed", "KeyedLockAbsTrace", dict(NK=3, NT=4), segs, [], plans=replay_plans(srcs), label="history")
     for r in run.rejections:
         r["fact"] = True
     run.cov.update(distinct_nontrivial=len(segs), rule="replay of one stored program and schedule")
